@@ -481,8 +481,7 @@ def run(chk):
     sc, cc = _load()
     from symex import loader
 
-    chk.functions = loader.describe([cc.propagate_times, cc.wavelength_to_inverse_velocity, cc.Subframe.__init__, cc.Subframe.propagate_by, cc.Subframe.is_regular,
-                                     cc.Frame.propagate_to, cc.Frame.chop, cc.Frame.subbounds, cc.FrameSequence.from_source_pulse, cc.FrameSequence.chop, cc._chop])
+    chk.functions = loader.describe_exprs(['cc.propagate_times', 'cc.wavelength_to_inverse_velocity', 'cc.Subframe.__init__', 'cc.Subframe.propagate_by', 'cc.Subframe.is_regular', 'cc.Frame.propagate_to', 'cc.Frame.chop', 'cc.Frame.subbounds', 'cc.FrameSequence.from_source_pulse', 'cc.FrameSequence.chop', 'cc._chop'], {**globals(), **locals()})
     ns = [3, 4, 5] if chk.tier == 'quick' else [3, 4, 5, 6]
     run_jobs(chk, job_clip, [(n, c) for n in ns for c in (True, False)])
     run_jobs(chk, job_propagate, [0])
